@@ -177,6 +177,17 @@ def run(tier, seed):
             log.add("close", "transcription.precision_recall_f1_overlap", base,
                     call(me.transcription.precision_recall_f1_overlap, ri, rp * f, ei, ep * f, **kw),
                     {"what": "both x 2^(j/12)", "factor": f, "ref_pitches": rp.tolist(), "est_pitches": ep.tolist(), "kw": str(kw)})
+    # fixed witnesses of the recorded findings' input class (a frequency exactly on base_frequency), whatever the seed
+    w_t = np.arange(3) / 64.0
+    w_rf, w_ef = np.array([220.0, 220.0, 440.0]), np.array([110.0, 220.0, 440.0])
+    w_kw = {"base_frequency": 55.0}
+
+    def w_chroma(est):
+        return call(lambda: me.melody.raw_chroma_accuracy(*me.melody.to_cent_voicing(w_t, w_rf, w_t, est, **w_kw)))
+    log.add("same", "melody.raw_chroma_accuracy", w_chroma(w_ef), w_chroma(w_ef * 0.5),
+            {"what": "estimate-only octave shift", "kw": w_kw, "at_origin": True, "ref_freq": w_rf.tolist(), "est_freq": w_ef.tolist(), "witness": True})
+    log.add("same", "melody.evaluate", call(me.melody.evaluate, w_t, w_rf, w_t, w_ef, **w_kw), call(me.melody.evaluate, w_t, w_rf * 0.5, w_t, w_ef * 0.5, **w_kw),
+            {"what": "both x octave", "factor": 0.5, "kw": w_kw, "at_origin": True, "ref_freq": w_rf.tolist(), "est_freq": w_ef.tolist(), "witness": True})
     bad, st = log.judge()
     ev.tlc("Trace_Rel", st, "relation verdicts on recorded outcome pairs")
     ev.cov["traces_validated_against_impl"] = len(log.events) + len(rows) + len(krows)
